@@ -13,8 +13,12 @@ import (
 	"gitlab.com/aquachain/aquachain/common"
 	"gitlab.com/aquachain/aquachain/common/verifhook"
 	"gitlab.com/aquachain/aquachain/core"
+	"gitlab.com/aquachain/aquachain/core/state"
 	"gitlab.com/aquachain/aquachain/core/types"
 	"gitlab.com/aquachain/aquachain/core/vm"
+	"gitlab.com/aquachain/aquachain/rlp"
+	"gitlab.com/aquachain/aquachain/trie"
+	"verifsim/kernel"
 	"verifsim/simdisk"
 )
 
@@ -211,6 +215,82 @@ func (n *Node) InsertHeaders(ids []int) (idx int, err error, died, panicked stri
 		hs[i].Version = n.U.Cfg.GetBlockVersion(hs[i].Number)
 	}
 	died, panicked = guarded(func() { idx, err = n.BC.InsertHeaderChain(hs, 1) })
+	if died != "" {
+		n.Died = died
+	}
+	return
+}
+
+// InsertReceipts feeds bodies and receipts to InsertReceiptChain the way a fast-syncing node
+// gets them from a peer: the receipts carry their consensus fields only (they went through
+// the wire encoding), everything else the node derives itself.
+func (n *Node) InsertReceipts(ids []int) (idx int, err error, died, panicked string) {
+	blocks := make(types.Blocks, len(ids))
+	receipts := make([]types.Receipts, len(ids))
+	for i, id := range ids {
+		b := n.U.Blocks[id]
+		blocks[i] = types.NewBlockWithHeader(b.Header()).WithBody(b.Transactions(), b.Uncles())
+		for _, r := range n.U.Receipts[id] {
+			enc, e := rlp.EncodeToBytes(r)
+			if e != nil {
+				return i, e, "", ""
+			}
+			wire := new(types.Receipt)
+			if e := rlp.DecodeBytes(enc, wire); e != nil {
+				return i, e, "", ""
+			}
+			receipts[i] = append(receipts[i], wire)
+		}
+	}
+	died, panicked = guarded(func() { idx, err = n.BC.InsertReceiptChain(blocks, receipts) })
+	if died != "" {
+		n.Died = died
+	}
+	return
+}
+
+// SyncState downloads the state of block id with the real state-sync scheduler: the oracle
+// node's database answers the scheduler's requests, in batches and in an order drawn from
+// seed; then the block becomes the node's head (the pivot of a fast sync).
+func (n *Node) SyncState(id int, seed uint64) (fetched int, err error, died, panicked string) {
+	b := n.U.Blocks[id]
+	rng := kernel.NewRNG(seed)
+	died, panicked = guarded(func() {
+		sched := state.NewStateSync(b.Root(), n.Disk)
+		for round := 0; round < 100000; round++ {
+			missing := sched.Missing(rng.Range(1, 24))
+			if len(missing) == 0 {
+				break
+			}
+			for i := len(missing) - 1; i > 0; i-- {
+				j := rng.Intn(i + 1)
+				missing[i], missing[j] = missing[j], missing[i]
+			}
+			results := make([]trie.SyncResult, 0, len(missing))
+			for _, h := range missing {
+				data, e := n.U.ODB.Get(h[:])
+				if e != nil {
+					err = fmt.Errorf("the oracle node lacks state entry %x: %v", h[:4], e)
+					return
+				}
+				results = append(results, trie.SyncResult{Hash: h, Data: data})
+			}
+			if _, _, e := sched.Process(results); e != nil {
+				err = fmt.Errorf("state sync refused a correct answer: %v", e)
+				return
+			}
+			if _, e := sched.Commit(n.Disk); e != nil {
+				err = e
+				return
+			}
+			fetched += len(results)
+		}
+		if sched.Pending() > 0 {
+			err = fmt.Errorf("state sync still has %d entries pending with nothing left to request", sched.Pending())
+			return
+		}
+		err = n.BC.FastSyncCommitHead(b.Hash())
+	})
 	if died != "" {
 		n.Died = died
 	}
